@@ -27,10 +27,17 @@ pub struct Driven {
 }
 
 pub fn drive_setup(g: &OGraph) -> Option<Driven> {
-    let sampler = match build(g, &dummy_sig(g)) {
+    let mut sampler = match build(g, &dummy_sig(g)) {
         BuildOutcome::Ok(s) => s,
         _ => return None,
     };
+    // construction path (a function of the graph, so that a replay takes the same one): every third sampler is used
+    // after a CBOR round trip - a restored sampler selects edges like a built one
+    if fnv(&graph_json(g).to_string()) % 3 == 1 {
+        if let Ok(s2) = Sampler::from_cbor(g.dim, &sampler.to_cbor()) {
+            sampler = s2;
+        }
+    }
     let m = sampler.observe().ok()?;
     if !m.table.table.iter().all(|e| e.j_function.is_finite() && e.generalized_dod.is_finite()) {
         return None;
